@@ -12,6 +12,11 @@ Rules (on all eight point-type instantiations, both estimate_ overloads, all fou
       estimate_ on the underlying sets; the raw overloads return estimate_ unchanged
   V5  the two estimate_ overloads agree statement by statement after normalising how a pair is fetched
   V6  all eight point types are explicitly instantiated
+  V8  closed-form tail (fallback when the rotation is not assembled from SVD factors): the statements after the covariance loop are read
+      symbolically with the covariance as input (constant-folded `if (CARTESIAN_DIM == 2)` arms pruned); with cov = S R(phi)^T for a
+      positive definite S the stored rotation must be R(phi) for witness angles on both sides of pi/2 and near pi (the quantifier has
+      every angle up to pi) and the translation column must be targetMean - R sourceMean; a path that returns before any rotation is
+      stored, under a tolerance test on the covariance, is reported (the covariance scales with the square of the preconditioning scale)
   V7  preconditioned set (the input of the preconditioned find overloads, re-used across calls by its owners): after compute(points, ..)
       the stored set has exactly points.size() elements on every path of allocate_() - whatever size an earlier, larger cloud left behind -
       and every compute overload either delegates or calls allocate_(points.size()) before a loop that writes every index 0..points.size()
@@ -211,6 +216,11 @@ def check_estimate(fx, R, cname, f, tag):
     D = cdim(f, fx)
     # ---- locate the anchors ---------------------------------------------
     rot = [i for i, e in enumerate(ev) if e[0] == 'expr' and m(('=', ('.block', '$H', 0, 0, 'CARTESIAN_DIM', 'CARTESIAN_DIM'), '$RHS'), e[1], {})]
+    tail_verdict = closed_form_tail(fx, R, f, inst, D) if D is not None else None
+    if tail_verdict == 'violated':
+        return None
+    if (len(rot) != 1 or D is None) and tail_verdict == 'holds':
+        return None
     if len(rot) != 1 or D is None:
         um = [e for e in ev if contains(e[1], 'Eigen::umeyama')]
         if um:
@@ -665,3 +675,118 @@ def check_preconditioned_set(fx, R):
                 R.violated('V7', tag, 'this overload writes points_ without calling allocate_(): the set keeps the size of the previous cloud', fx.rel(g['loc']), 'E-STATE')
             else:
                 R.undecided('V7', tag, 'allocation / fill idiom not recognised: calls %s, stores %s' % ([c[1] for c in calls], [s_[1][1] for s_ in stores][:2]))
+
+
+def closed_form_tail(fx, R, f, inst, D):
+    """'violated' / 'holds' / None (not applicable: the tail uses the SVD factors or is not interpretable)."""
+    from ..tree import prune
+    from .. import mat, alg
+    body = prune(f['body'])
+    top = body['s'] if body and body.get('k') == 'Compound' else []
+    loops = [i for i, x in enumerate(top) if x.get('k') in ('For', 'RangeFor', 'While')]
+    if not loops:
+        return None
+    tail = top[loops[-1] + 1:]
+    if not tail:
+        return None
+    uses_svd = any(y.get('k') in ('Decl',) and any('JacobiSVD' in (v['t'].get('s') or '') for v in y['vars']) for x in tail for y in walk(x))
+    # ---- early exits under a tolerance test on the covariance ----------------------------------------------------------------
+    for x in tail:
+        if x.get('k') == 'If' and any(y.get('k') == 'Return' for y in walk(x.get('t'))):
+            ctxt = pp(x['c'])
+            tol = any(y.get('k') == 'MCall' and y.get('m') in ('isZero', 'isMuchSmallerThan', 'isApprox', 'isApproxToConstant', 'isConstant') for y in walk(x['c'])) or \
+                any(y.get('k') == 'Bin' and y.get('op') in ('<', '<=') and isinstance(const_value(y.get('r')), float) and const_value(y.get('r')) > 0 for y in walk(x['c']))
+            stores_rot = any(y.get('k') == 'MCall' and y.get('m') in ('block', 'topLeftCorner', 'linear') for z in walk(x.get('t')) if z.get('k') == 'Expr' for y in walk(z)
+                             if 'CARTESIAN_DIM, CARTESIAN_DIM' in pp(y).replace('0, 0, ', '') or 'linear' in pp(y))
+            if tol and 'cov' in ctxt and not uses_rotation_from_cov(x.get('t')):
+                R.violated('V8', inst + ':tolerance-exit', 'under `%s` the estimator returns without deriving a rotation from the covariance (the linear part stays what H was initialised with); the test is a '
+                           'tolerance on the covariance entries, which scale with (preconditioning scale)^2 * (cloud extent)^2 * N: small but perfectly conditioned clouds of the quantifier (every preconditioning '
+                           'scale, clustered sets) satisfy it and get the identity rotation' % ctxt, fx.rel(x['loc']), 'E-STATE')
+                return 'violated'
+    if uses_svd:
+        return None
+    # ---- symbolic reading of the tail with the covariance as input ---------------------------------------------------------
+    ids = {}
+    for x in walk(f['body']):
+        if x.get('k') == 'Decl':
+            for v in x['vars']:
+                ids.setdefault(v['name'], (v['id'], v['t'].get('s', '')))
+    if 'cov' not in ids or 'sourceMean' not in ids or 'targetMean' not in ids:
+        return None
+    P = mat.dims_of(ids['cov'][1])
+    if P is None:
+        return None
+    P = P[0]
+    C = sp.ImmutableMatrix(P, P, lambda i, j: sp.Symbol('c%d%d' % (i, j), real=True) if i < D and j < D else sp.Integer(0))
+    ms = sp.ImmutableMatrix(P, 1, lambda i, j: sp.Symbol('ms%d' % i, real=True) if i < D else sp.Integer(1))
+    mt = sp.ImmutableMatrix(P, 1, lambda i, j: sp.Symbol('mt%d' % i, real=True) if i < D else sp.Integer(1))
+
+    def hook(rd, e, st, ctx):
+        if e.get('k') == 'MCall' and e.get('m') == 'toRotationMatrix' and 'Rotation2D' in ((strip_casts(e['obj']).get('t') or {}).get('s', '')):
+            o_ = strip_casts(e['obj'])
+            args_ = o_.get('args', []) if o_.get('k') == 'Construct' else []
+            if len(args_) == 1:
+                return [(sp.ImmutableMatrix([[sp.cos(v), -sp.sin(v)], [sp.sin(v), sp.cos(v)]]), s2) for (v, s2) in rd.ev(args_[0], st, ctx) if isinstance(v, sp.Basic)]
+        return mat.hook(rd, e, st, ctx)
+    rd = sym.Reader(fx, call_hook=hook, member_hook=mat.member_hook)
+    st0 = sym.State()
+    st0.locals[ids['cov'][0]] = C
+    st0.locals[ids['sourceMean'][0]] = ms
+    st0.locals[ids['targetMean'][0]] = mt
+    ctx = {'this': ('this',), 'fn': f, 'depth': 0}
+    try:
+        states = [st0]
+        for x in tail:
+            nxt = []
+            for s_ in states:
+                nxt += rd.ex(x, s_, ctx)
+            states = nxt
+    except sym.Unsupported:
+        return None
+    if D != 2 or not states:
+        return None
+    S = sp.Matrix([[2, sp.Rational(3, 10)], [sp.Rational(3, 10), 1]])
+    n_ok = 0
+    for st in states:
+        H = st.ret
+        if not isinstance(H, sp.MatrixBase) or H.shape[0] < 3:
+            return None
+        Rb = sp.Matrix(H[:2, :2])
+        tr = sp.Matrix(H[:2, 2])
+        for phi in (sp.Rational(3, 10), sp.Rational(17, 10), -sp.Rational(11, 5), sp.Rational(31, 10), -sp.Rational(3, 2)):
+            Rphi = sp.Matrix([[sp.cos(phi), -sp.sin(phi)], [sp.sin(phi), sp.cos(phi)]])
+            Cv = S * Rphi.T
+            env = {C[i, j]: Cv[i, j] for i in range(2) for j in range(2)}
+            try:
+                got = sp.Matrix(Rb).subs(env).applyfunc(lambda x: sp.N(x, 30))
+            except Exception:
+                return None
+            if any(not g_.is_number for g_ in got):
+                return None
+            err = max(abs(sp.N(got[i, j] - Rphi[i, j], 30)) for i in range(2) for j in range(2))
+            if err > sp.Float('1e-9'):
+                R.violated('V8', inst + ':closed-form-rotation', 'the 2-D closed form stores %s; for point sets related by a rotation of %s rad (cov = S R^T with S positive definite) it evaluates to '
+                           '[[%s, %s], [%s, %s]] instead of R(%s): off by %s - the quadrant of the angle is lost beyond +-pi/2 (the quantifier has every angle up to pi)' % (
+                               str(Rb.tolist())[:200], phi, sp.N(got[0, 0], 4), sp.N(got[0, 1], 4), sp.N(got[1, 0], 4), sp.N(got[1, 1], 4), phi, sp.N(err, 3)), fx.rel(f['loc']), 'E-ALG')
+                return 'violated'
+            n_ok += 1
+        # translation column = targetMean - R sourceMean with the very rotation stored
+        want_t = sp.Matrix(mt[:2, 0]) - Rb * sp.Matrix(ms[:2, 0])
+        v = alg.decide_zero(sp.Matrix(tr - want_t))
+        if v[0] == 'nonzero':
+            R.violated('V8', inst + ':closed-form-translation', 'the translation column is %s, not targetMean - R*sourceMean with the stored rotation (differs by %s at %s)' % (
+                str(tr.T.tolist())[:200], v[2], alg.witness_text(v[1])[:160]), fx.rel(f['loc']), 'E-ALG')
+            return 'violated'
+        if v[0] != 'zero':
+            return None
+    R.undecided('V8', inst + ':closed-form', 'the rotation is a closed form of the covariance that reproduces R(phi) on %d witness angles on both sides of pi/2; least-squares optimality for noisy data is not decided '
+                'for a closed form' % n_ok)
+    return None
+
+
+def uses_rotation_from_cov(block):
+    """does the block store a linear part computed from the covariance (SVD factors, closed form ...)?"""
+    for x in walk(block):
+        if x.get('k') == 'Decl' and any('JacobiSVD' in (v['t'].get('s') or '') or 'cov' in pp(v.get('init')) for v in x['vars'] if v.get('init') is not None):
+            return True
+    return False
